@@ -799,13 +799,22 @@ impl<'u> Driver<'u> {
             }
             let bak = if self.dir.join("event.map.bak").exists() && self.dir.join("lmdb.bak").exists() { 1 } else { 0 };
             let (rbase, rok, rchecked) = self.ref_obs();
+            // what every held reference denoted when it was handed out is still what the store has at that offset
+            // (looked up afresh, so this holds or fails whether or not the mapping has moved since)
+            let mut rfresh = 1;
+            for (_p, off, i, _b) in self.held.iter() {
+                match catch_unwind(AssertUnwindSafe(|| st.get_event_by_offset(*off).map(|e| e.as_bytes() == u.ev(*i).as_bytes()))) {
+                    Ok(Ok(true)) => {}
+                    _ => rfresh = 0,
+                }
+            }
             let held_bases: Vec<i64> = {
                 let mut v: Vec<i64> = self.held.iter().map(|h| h.3 as i64).collect();
                 v.sort();
                 v.dedup();
                 v
             };
-            json!({"rbase": rbase, "rok": rok, "rchecked": rchecked, "held": held_bases, "nheld": self.held.len() as i64,
+            json!({"rbase": rbase, "rok": rok, "rfresh": rfresh, "rchecked": rchecked, "held": held_bases, "nheld": self.held.len() as i64,
                    "open": 1, "retr": retr, "corrupt": corrupt, "delIds": del_ids, "delAddr": del_addr, "find": find,
                    "ix": ix, "end": end, "flen": flen, "gen": self.gen, "offs": offs, "extra": extra, "bak": bak})
         }));
